@@ -248,7 +248,7 @@ def run_with(ctx, judge_fn, rule_tail, anchored=True):
             "forms: every pair of positions x every pair of forms, chain dependencies in source order (thorough: chain and star, all "
             "rotations and the reversed order). (C) every full-length chain over 6 core alias / constant / factor forms in source and "
             "reversed order (thorough: rotations too). Option sets: 'near' = every set of the 13 simplification switches and "
-            "eliminable_variable_expression within Hamming distance 1 of the default and of all-on, on (A) in source order, on (B) for "
+            "eliminable_variable_expression within Hamming distance 1 of the default and of all-on, on (A) in source order (quick: chain dependencies only), on (B) for "
             "pairs of 6 core forms, (thorough) on (C) in source order; 'wide' = distance 2, thorough only, on (B) core pairs in source / "
             "reversed order. (D) non-triangular systems: der(s) = 2 * a1 + u plus every non-singular set of k equations from a pool of alias / "
             "shift / constant forms over the ordered pairs of k = 2 (thorough: 3 with all forms; quick: 3 with the two plain alias forms) "
@@ -256,7 +256,7 @@ def run_with(ctx, judge_fn, rule_tail, anchored=True):
             "in source order with an initial equation (s = 2 * p; a_n = 7 * s + u): DAE + initial equations are compared as one system. "
             "(F, C14 only) systems that need not be square: every set of 2..3 plain alias equations tying two unknowns to the state, the "
             "input or each other with either sign (redundant, contradictory, over-determining), exact comparison only. "
-            "'core' = 10 named sets (default, each eliminating pass alone, all-on and its neighbours) on everything else. " % len(S.FORMS) + rule_tail,
+            "'core' = 10 named sets (default, each eliminating pass alone, all-on and its neighbours) on everything else, except that in the quick tier the non-source, non-reversed orders of (A) and the non-core pairs of (B) use 'perm' = the 5 of them that eliminate (detect_aliases, eliminate_constant_assignments, eliminable a.*, all-on with a.*, all-on without reduce_affine). " % len(S.FORMS) + rule_tail,
         }
     )
 
